@@ -2,6 +2,7 @@ import LhasaV.Model.ListOut
 import LhasaV.Model.Glob
 import LhasaV.Lemmas.ListProps
 import LhasaV.Lemmas.GlobFs
+import LhasaV.Lemmas.PrintList
 /-!
 # C19 — list output renders every member's header fields faithfully in Unix-LHA layout
 (structure theorems are being proved in Lemmas/ListProps.lean; this file re-exports what is done)
@@ -62,5 +63,44 @@ theorem timestamp_old {now t : Nat} (h0 : t ≠ 0) (h : t + 15552000 ≤ now) :
 theorem selection_spec (fs : List (List UInt8)) (hdrs : List Header.Hdr) :
     Glob.select fs hdrs = hdrs.filter (fun h => fs.isEmpty || fs.any (fun f => Glob.GlobSpec f (Glob.fullName h))) :=
   GlobFs.select_spec fs hdrs
+
+open Header Extract ExtractTree ArchiveOf Reader ListProps ListOut ToolNoFault PrintList in
+/-- **The listing of an archive, on bytes.** For every encodable entry list, packer with a decoder
+round trip, listing mode (l / lv / v / vv), quiet level, clock and wildcard list: walking
+`archiveWith pk es` yields exactly the headers of `es` in order (each denoting its entry), and the
+listing is head ++ one row group per SELECTED entry ++ tail with the totals of the selected entries
+(count, Σ data lengths, Σ packed lengths). -/
+theorem listing_of_archive (pk : Packer) (es : List Entry) (hok : ∀ e ∈ es, EntryOk e)
+    (henc : Encodable es) (hpk : Packs pk es) (fuel : Nat) (hf : es.length < fuel)
+    (vl vo : Bool) (quiet now archiveMtime : Nat) (fl : List Bytes) :
+    ∃ hs, Driver.allHeaders fuel (toolReader (archiveWith pk es)) [] = .ok hs ∧
+      hs = es.map (hdrOf pk) ∧ (∀ e ∈ es, HdrOf e (hdrOf pk e)) ∧
+      render vl vo quiet now archiveMtime (Glob.select fl hs) =
+        listHead vl vo quiet ++
+        (es.filter (selected fl)).flatMap (fun e => printColumns (columnsFor vl vo) now (hdrOf pk e)) ++
+        listTail vl vo quiet now (totalsOf pk archiveMtime (es.filter (selected fl))) :=
+  PrintList.listing_archiveWith pk es hok henc hpk fuel hf vl vo quiet now archiveMtime fl
+
+open Header Extract ExtractTree ArchiveOf Reader ListProps ListOut ToolNoFault PrintList in
+/-- `lha l` ends with ` Total <N> files <Σ sizes> <ratio> <archive time>`, N = number of selected
+entries (≠ 1), the sums those of the selected entries (below the 2³² wrap) -/
+theorem total_line (pk : Packer) (es : List Entry) (hok : ∀ e ∈ es, EntryOk e)
+    (henc : Encodable es) (hpk : Packs pk es) (fuel : Nat) (hf : es.length < fuel)
+    (quiet now archiveMtime : Nat) (fl : List Bytes) (hq : quiet < 2)
+    (hn : (es.filter (selected fl)).length < 2147483648) (hn1 : (es.filter (selected fl)).length ≠ 1)
+    (hl : ((es.filter (selected fl)).map dataLen).sum < two32)
+    (hc : ((es.filter (selected fl)).map (packedLen pk)).sum < two32) :
+    ∃ hs, Driver.allHeaders fuel (toolReader (archiveWith pk es)) [] = .ok hs ∧
+      render false false quiet now archiveMtime (Glob.select fl hs) =
+        listHead false false quiet ++
+        (es.filter (selected fl)).flatMap (fun e => printColumns (columnsFor false false) now (hdrOf pk e)) ++
+        (printListSeparators (columnsFor false false) ++
+         (str " Total    " ++ str " " ++
+          (padLeft 5 (dec (es.filter (selected fl)).length) ++ str " files") ++ str " " ++
+          sizeField ((es.filter (selected fl)).map dataLen).sum ++ str " " ++
+          ratioFooter ((es.filter (selected fl)).map (packedLen pk)).sum
+            ((es.filter (selected fl)).map dataLen).sum ++ str " " ++
+          outputTimestamp now (archiveMtime % two32) ++ str "\n")) :=
+  PrintList.total_line_l pk es hok henc hpk fuel hf quiet now archiveMtime fl hq hn hn1 hl hc
 
 end LhasaV.Props.C19
